@@ -123,6 +123,21 @@ def _conditions(cfg, stmt) -> List[Tuple[ast.expr, bool]]:
     return out
 
 
+def _switch_off(cfg, stmt) -> bool:
+    """``fix_even_unparsable`` (the parameter, read directly or through a local) is known false at ``stmt``."""
+    from ..flowutil import param_origin
+
+    for e2, pol in _conditions(cfg, stmt):
+        if isinstance(e2, ast.UnaryOp) and isinstance(e2.op, ast.Not):
+            e2, pol = e2.operand, not pol
+        if pol or not isinstance(e2, ast.Name):
+            continue
+        at = cfg.stmt_of(e2)
+        if e2.id == "fix_even_unparsable" or param_origin(cfg, e2, at) == "fix_even_unparsable":
+            return True
+    return False
+
+
 def _is_handler_with(cfg, w) -> bool:
     """``with PathAndUserErrorHandler(...):`` – the context manager built in place or held in a
     local that is bound only by such a construction."""
@@ -260,9 +275,7 @@ def run(chk) -> None:
                     if "fix_even_unparsable" in fparams and ci.types is not None and "SQLParseError" in set(ci.types):
                         chk.count("R22g.parse_error_counts_in_fix_drivers")
                         stn = cfg.stmt_of(n) or st
-                        gated = any(
-                            (not pol) and isinstance(e2, ast.Name) and e2.id == "fix_even_unparsable" for e2, pol in _conditions(cfg, stn)
-                        )
+                        gated = _switch_off(cfg, stn)
                         chk.require(
                             gated, "R22g", n,
                             f"{f.name}: a count that includes parse errors ({short(n, 60)}) can influence the exit status without a dominating `not fix_even_unparsable`: "
@@ -284,7 +297,7 @@ def run(chk) -> None:
                     if "fix_even_unparsable" in fparams and ci.types is not None and "SQLParseError" in set(ci.types):
                         chk.count("R22g.parse_error_counts_in_fix_drivers")
                         stn = cfg.stmt_of(nm) or st
-                        gated = any((not pol) and isinstance(e2, ast.Name) and e2.id == "fix_even_unparsable" for e2, pol in _conditions(cfg, stn))
+                        gated = _switch_off(cfg, stn)
                         chk.require(
                             gated, "R22g", nm,
                             f"{f.name}: a count that includes parse errors ({nm.id}) can influence the exit status without a dominating `not fix_even_unparsable`",
@@ -645,6 +658,18 @@ VARIANTS = [
             "    templater_error = result.num_violations(types=TMP_PRS_ERROR_TYPES) > 0\n", "R22g", "_stdin_fix",
             "seeded C22-3: `fix - --FIX-EVEN-UNPARSABLE` exits 1 for a file that was fixed"),
     # behaviour-preserving refactors: must stay quiet
+    Variant(
+        "quiet-unparsable-switch-through-a-local", CLI,
+        "    if fix_even_unparsable:\n        # If we're fixing even when unparsable, don't perform any filtering.\n        return initial_exit_code\n",
+        "    keep_going = fix_even_unparsable\n    if keep_going:\n        return initial_exit_code\n",
+        "QUIET", None, "R22g: the switch read through a local",
+    ),
+    Variant(
+        "quiet-unparsable-switch-tested-negatively", CLI,
+        "    if fix_even_unparsable:\n        # If we're fixing even when unparsable, don't perform any filtering.\n        return initial_exit_code\n",
+        "    if not fix_even_unparsable:\n        pass\n    else:\n        return initial_exit_code\n",
+        "QUIET", None, "R22g: the same branch with the test negated",
+    ),
     Variant(
         "quiet-lint-exit-through-locals", CLI,
         "        exit_code = result.stats(EXIT_FAIL, EXIT_SUCCESS)[\"exit code\"]\n",
